@@ -26,6 +26,10 @@ Record c14_case := {
   c_comp : bool;                                   (* the first objective returns exact Python floats *)
   c_m : nat;                                       (* declared user objectives *)
   c_tols : fvec;
+  c_tolss : list fvec;                             (* red-team round 6: the tolerances current at the time of each
+                                                      evaluate() call (problem.parameters was rebound / edited between
+                                                      construction and a batch); [] = c_tols for every batch, i.e. the
+                                                      runs of the theorems *)
   c_table : list (fvec * fvec * fvec * bool);      (* vector, costs, signed costs (numbers), flag *)
   c_batches : list (list fvec);
   c_again : list (list nat);                     (* per batch: designs created earlier (by creation index
@@ -131,6 +135,36 @@ Fixpoint hist_items (bs : list (list fvec)) (ag : list (list nat)) (pre : list (
   | b :: bs' => (new_items b (hd [] pre) ++ map Old (hd [] ag)) :: hist_items bs' (tl ag) (tl pre)
   end.
 
+(* problem.parameters re-parametrised between batches (red-team round 6): every evaluate() call runs the model's
+   wc_evaluate with the tolerance list current at that call; everything else is wc_hist.  With one and the same
+   list for every batch it IS wc_hist (wc_hist_staged_constant), the function of C14_worstcase_cost_shape. *)
+Section Staged.
+  Variable T : Type.
+  Variables (add sub mul : T -> T -> T) (abs : T -> T) (zero one mone : T) (psum : list T -> T) (m : nat).
+  Variables (f sgn : list T -> list T) (infeas : list T -> bool) (fails : nat -> option (list T)).
+
+  Fixpoint wc_hist_staged (s : st T) (created : list nat) (bs : list (list T * list (item T)))
+    : st T * list (list nat) :=
+    match bs with
+    | [] => (s, [])
+    | (tl, b) :: bs' =>
+        let '(hl, ids, nw) := mk_batch T f sgn infeas fails (s_heap _ s, s_log _ s) created b in
+        let '(s2, idss) :=
+          wc_hist_staged (wc_evaluate T add sub mul abs zero one mone psum m tl f sgn infeas fails (with_hl T s hl) ids)
+                         (created ++ nw) bs' in
+        (s2, ids :: idss)
+    end.
+
+  Lemma wc_hist_staged_constant : forall tols bs s created,
+    wc_hist_staged s created (map (pair tols) bs) =
+    wc_hist T add sub mul abs zero one mone psum m tols f sgn infeas fails s created bs.
+  Proof.
+    intros tols bs; induction bs as [|b bs IH]; intros s created; simpl; [reflexivity|].
+    destruct (mk_batch T f sgn infeas fails (s_heap T s, s_log T s) created b) as [[hl ids] nw].
+    rewrite IH; reflexivity.
+  Qed.
+End Staged.
+
 Definition c14_run (c : c14_case) : c14_obs :=
   let t := c_table c in
   let fails := tape_fails (c_fails c) in
@@ -140,6 +174,15 @@ Definition c14_run (c : c14_case) : c14_obs :=
                          0%float 1%float (-1)%float psum (c_m c) (c_tols c) (tab_f t) (tab_sgn t) (tab_infeas t) fails in
   let ge := g_evaluate float PrimFloat.add PrimFloat.sub PrimFloat.div 0%float DELTA
                        (tab_f t) (tab_sgn t) (tab_infeas t) fails in
+  if c_wc c && negb (match c_tolss c with [] => true | _ => false end) then
+    (* the tolerances changed between batches: one list per batch (fail closed on a length mismatch) *)
+    let items := hist_items (c_batches c) (c_again c) (c_pre c) in
+    if Nat.eqb (length (c_tolss c)) (length items) then
+      obs_of (wc_hist_staged float PrimFloat.add PrimFloat.sub PrimFloat.mul PrimFloat.abs
+                             0%float 1%float (-1)%float psum (c_m c)
+                             (tab_f t) (tab_sgn t) (tab_infeas t) fails (init float) [] (combine (c_tolss c) items))
+    else None
+  else
   if forallb (fun l => match l with [] => true | _ => false end) (c_again c) &&
      forallb (forallb negb) (c_pre c) then
     if c_wc c then
